@@ -5,8 +5,8 @@ export GOFLAGS=-mod=mod GOPROXY=off GOSUMDB=off GOTOOLCHAIN=local
 ID=$1; shift
 mkdir -p /tmp/${RUN:-seedrun}/$ID
 for C in "$@"; do
-  cd /verif
-  ZOGMC_SRC=/tmp/${ROUND:-seed}/$ID ZOGMC_OUT=/tmp/${RUN:-seedrun}/$ID bin/zogmc check $C --tier ${TIER:-quick} > /tmp/${RUN:-seedrun}/$ID/$C.log 2>&1
+  cd ${VERIF:-/verif}
+  ZOGMC_VERIF=${VERIF:-/verif} ZOGMC_SRC=/tmp/${ROUND:-seed}/$ID ZOGMC_OUT=/tmp/${RUN:-seedrun}/$ID bin/zogmc check $C --tier ${TIER:-quick} > /tmp/${RUN:-seedrun}/$ID/$C.log 2>&1
   E=$?
   N=$(grep -c '^VIOLATION' /tmp/${RUN:-seedrun}/$ID/$C.log)
   echo "seed=$ID check=$C exit=$E violations=$N $(grep -E "^$C " /tmp/${RUN:-seedrun}/$ID/$C.log | cut -c1-120)" | tee -a /tmp/${RUN:-seedrun}/summary.txt
